@@ -17,7 +17,7 @@
 (*      t: target of a link = REAL path of a dir/file, or a missing path]  *)
 (* Link targets are real (link-free) paths, so resolution is one hop.      *)
 (***************************************************************************)
-EXTENDS Lattice, TLC
+EXTENDS LimbBig, TLC
 
 \* ------------------------------------------------------------------ names
 RECURSIVE JoinStr(_, _)
@@ -106,12 +106,14 @@ AudioPossibly(T, p, strict) ==
 K == 3          \* directory levels below the root that are looked at (no link-free tree of the universe is deeper than 2)
 SubDirNames(T, at, follow) ==
     {T.ents[i].n : i \in {j \in Children(T, at) : T.ents[j].k = "dir" \/ (follow /\ T.ents[j].k = "link" /\ IsRealDir(T, T.ents[j].t))}}
+Below(T, follow, D) == UNION {LET r == ResolveDir(T, d) IN {d \o <<n>> : n \in SubDirNames(T, r.at, follow)} : d \in D}
 RECURSIVE Level(_, _, _)
-Level(T, follow, k) ==
-    IF k = 0 THEN {<<>>}
-    ELSE UNION {LET r == ResolveDir(T, d) IN {d \o <<n>> : n \in SubDirNames(T, r.at, follow)} : d \in Level(T, follow, k - 1)}
+Level(T, follow, k) == IF k = 0 THEN {<<>>} ELSE Below(T, follow, Level(T, follow, k - 1))
 \* directories visited: all depths when recursive (through directory links only with follow), else the top level only
-Reach(T, rec, follow) == IF rec THEN UNION {Level(T, follow, k) : k \in 0..K} ELSE {<<>>}
+Reach(T, rec, follow) ==
+    IF ~rec THEN {<<>>}
+    ELSE LET l1 == Below(T, follow, {<<>>})  l2 == Below(T, follow, l1)  l3 == Below(T, follow, l2)      \* K = 3 levels
+         IN  {<<>>} \cup l1 \cup l2 \cup l3
 \* every path examined: the entries of every directory visited
 WalkPaths(T, rec, follow) ==
     UNION {LET r == ResolveDir(T, d) IN {d \o <<T.ents[i].n>> : i \in Children(T, r.at)} : d \in Reach(T, rec, follow)}
@@ -139,15 +141,6 @@ DsAllowed(T, rec) == {p \in WalkPaths(T, rec, TRUE) : AudioPossibly(T, p, TRUE)}
 DsTrap(T, rec) == \E p \in WalkPaths(T, rec, TRUE) :
                      LET s == Stat(T, p) IN (EndsOK(LastOf(p)) \/ (s.link /\ s.i # 0 /\ EndsOK(T.ents[s.i].n))) /\ ~Decodable(T, s)
 
-\* ------------------------------------------------------------------ doubles as limb numbers against exact rationals
-\* smallest d with x = d * (x / d) and x / d < 2^15
-SplitD(x) == CHOOSE d \in 1..1000 : x % d = 0 /\ x \div d <= 32767 /\ \A e \in 1..(d - 1) : ~(x % e = 0 /\ x \div e <= 32767)
-\* |v - p / (q1*q2)| < 2.4e-10 / (q1*q2), q2 possibly above 2^15
-LApproxBig(v, p, q1, q2) ==
-    IF p = 0 THEN v[1] = 0
-    ELSE v[1] = 1 /\ (LET d == SplitD(q2) IN LApproxRat(LMulMag(LMulMag(v, q1), d), p, q2 \div d))
-DurOK(v, fr, sr) == LFinite(v) /\ LApproxBig(v, fr, 1, sr)
-
 \* ------------------------------------------------------------------ acceptance of one observation (kind "tree")
 (* o.in  = [kind, tree, calls: <<[strict, rec, follow]>>, probes: <<path>>, ds: <<[rec, hash]>>]                     *)
 (* o.out = [files: <<[p, md5]>>   the regular files the binder wrote (real path string, md5 of the bytes written)    *)
@@ -156,7 +149,8 @@ DurOK(v, fr, sr) == LFinite(v) /\ LApproxBig(v, fr, 1, sr)
 (*          ds: <<[raised, name, descnone, recs: <<[p, sr, ch, dur, te, hash, hashnone]>>]>>  one per ds call]        *)
 Clauses == {"WalkNotDir", "WalkSound", "WalkComplete", "WalkOnce", "Drift/WalkAsImpl",
             "IsAudioFile", "Drift/IsAudioAsImpl",
-            "DsNotDir", "DsNoSpuriousRaise", "DsSound", "DsComplete", "DsOnce", "DsMetadata", "DsHash", "DsName"}
+            "DsNotDir", "DsNoSpuriousRaise", "DsSound", "DsComplete", "DsOnce", "DsMetadata", "DsHash", "DsName",
+            "Drift/advisory:DsAgreesWithDiscovery"}
 
 B2S(b) == IF b THEN "true" ELSE "false"
 Md5Of(files, ps) == LET S == {i \in DOMAIN files : files[i].p = ps} IN IF S = {} THEN "?" ELSE files[CHOOSE i \in S : TRUE].md5
@@ -199,6 +193,9 @@ DsHolds(cl, T, c, d, files) ==
                                 LET r == d.recs[i]  e == T.ents[Stat(T, PathOf(T, c.rec, r.p)).i]
                                 IN  IF c.hash THEN ~r.hashnone /\ r.hash = Md5Of(files, PStr(RealPath(e))) ELSE r.hashnone
       [] cl = "DsName"     -> ok => d.name = "the name" /\ d.descnone
+      \* advisory (never a violation): "the audio files in the directory" are the ones the library's own discovery function names
+      [] cl = "Drift/advisory:DsAgreesWithDiscovery" ->
+                ok => got = StrSet(Code(T, [strict |-> FALSE, rec |-> c.rec, follow |-> FALSE]))
 
 Holds(cl, o) ==
     LET T == o.in.tree IN
